@@ -20,9 +20,7 @@ theorem stepExactB_sound {tol : Rat} {M : Mat} {i j : Nat} (h : stepExactB tol M
   · intro hs; rcases h2 with h | h
     · rw [hs] at h; cases h
     · exact h
-  · intro hs; rcases h3 with h | h
-    · rw [hs] at h; cases h
-    · exact h
+  · exact realExactB_sound h3
   · intro hb; rcases h4 with h | h
     · rw [hb] at h; cases h
     · exact h
@@ -73,9 +71,7 @@ theorem stepExactLB_sound {tol : Rat} {M : Mat} {l k : Nat} (h : stepExactLB tol
   · intro hs; rcases h2 with h | h
     · rw [hs] at h; cases h
     · exact h
-  · intro hs; rcases h3 with h | h
-    · rw [hs] at h; cases h
-    · exact h
+  · exact realExactB_sound h3
   · intro hb; rcases h4 with h | h
     · rw [hb] at h; cases h
     · exact h
